@@ -826,8 +826,14 @@ func processStructProvider(fset *token.FileSet, info *types.Info, call *ast.Call
 			fmt.Errorf(firstArgReqFormat, types.TypeString(structPtr, nil)))
 	}
 
-	stExpr := call.Args[0].(*ast.CallExpr)
-	typeName := qualifiedIdentObject(info, stExpr.Args[0]) // should be either an identifier or selector
+	// The struct must be a named, non-generic type: the generated code
+	// refers to it by name.
+	named, ok := structPtr.Elem().(*types.Named)
+	if !ok || named.Obj().Pkg() == nil || named.TypeArgs().Len() > 0 {
+		return nil, notePosition(fset.Position(call.Pos()),
+			fmt.Errorf(firstArgReqFormat, types.TypeString(structPtr, nil)))
+	}
+	typeName := named.Obj()
 	provider := &Provider{
 		Pkg:      typeName.Pkg(),
 		Name:     typeName.Name(),
